@@ -12,6 +12,7 @@
 from __future__ import annotations
 
 import json
+import math
 import random
 
 from . import nh
@@ -171,6 +172,79 @@ def check_inplace(ctx: Ctx, a, b):
                       {"case": a, "to": b})
 
 
+def check_calendar_dates(ctx: Ctx, rnd):
+    """Sampling dates given as fractional calendar years (2019.9712 ...): the tips of the time tree sit at (latest date - date) to
+    double precision, for the plain and the re-parameterised tree models."""
+    import torch
+    from torchtree.core.utils import process_object
+    for it in range(8):
+        # half of the cases under the library's default single precision: the difference of two calendar dates must be formed in double
+        # precision and only then stored (forming it in float32 puts tips up to 1e-4 years off)
+        single = it % 2 == 1
+        torch.set_default_dtype(torch.float32 if single else torch.float64)
+        tol = 2e-6 if single else 1e-9
+        n = rnd.randint(3, 6)
+        names = [f"t{i}" for i in range(n)]
+        dates = [round(rnd.uniform(2009.0, 2021.0), 4) for _ in range(n)]
+        t = names[0]
+        for x in names[1:]:
+            t = f"({t},{x})"
+        for kind in ("ReparameterizedTimeTreeModel", "TimeTreeModel"):
+            dic = {}
+            process_object({"id": "taxa", "type": "Taxa", "taxa": [{"id": names[i], "type": "Taxon", "attributes": {"date": dates[i]}} for i in range(n)]}, dic)
+            js = {"id": "tree", "type": kind, "newick": t + ";", "taxa": "taxa"}
+            if kind == "TimeTreeModel":
+                js["internal_heights"] = {"id": "h", "type": "Parameter", "tensor": [15.0 + i for i in range(n - 1)]}
+            else:
+                js["ratios"] = {"id": "r", "type": "Parameter", "tensor": [0.5] * (n - 2)}
+                js["root_height"] = {"id": "rh", "type": "Parameter", "tensor": [20.0]}
+            ctx.add("evaluations")
+            ctx.distinct(("calendar", kind, it))
+            try:
+                tm = process_object(js, dic)
+                tips = tm.node_heights[..., :n].reshape(-1).double().tolist()
+            except Exception as e:
+                ctx.violation(f"C06:calendar-dates:raises:{kind}", f"{kind} with dates {dates}: {type(e).__name__}: {e}", {"dates": dates})
+                continue
+            want = [max(dates) - d for d in dates]
+            if any(abs(a - b) > tol * max(1.0, abs(b)) for a, b in zip(tips, want)):
+                ctx.violation(f"C06:calendar-dates:tip-heights:{kind}", f"{kind} ({'float32' if single else 'float64'} default) with sampling dates {dates}: tip heights {tips}, latest date minus date gives {want} "
+                              f"(largest difference {max(abs(a - b) for a, b in zip(tips, want)):.3g})", {"dates": dates})
+    torch.set_default_dtype(torch.float64)
+
+
+def check_smooth_difference(ctx: Ctx, rnd, tier):
+    """DifferenceNodeHeightTransform with the smooth maximum (k > 0): heights follow the documented rule
+    h_i = logsumexp(k h_children) / k + x_i, and the inverse undoes the forward map (also for nearly tied siblings)."""
+    import torch
+    from torchtree.evolution.tree_height_transform import DifferenceNodeHeightTransform
+    from . import c20
+    for it in range(12 if tier == "quick" else 80):
+        n = rnd.randint(3, 7)
+        tm, dic = c20.time_tree(rnd, n)
+        post = [tuple(int(v) for v in t) for t in tm.postorder]
+        samp = tm.sampling_times.tolist()
+        for k in (0.0, 0.5, 3.0):
+            tr = DifferenceNodeHeightTransform(tm, k=k)
+            x = [rnd.choice([1e-9, 0.05, 0.4, 1.3]) for _ in range(n - 1)]      # tiny increments make siblings nearly tied
+            ctx.add("evaluations")
+            ctx.distinct(("smooth", n, k, it))
+            h = list(samp) + [None] * (n - 1)
+            for node, l, r in post:
+                a, b = h[l], h[r]
+                m = max(a, b) if k <= 0 else (max(a, b) * k + math.log(math.exp(k * (a - max(a, b))) + math.exp(k * (b - max(a, b))))) / k
+                h[node] = m + x[node - n]
+            want = h[n:]
+            got = tr(torch.tensor(x)).tolist()
+            if not close(got, want, 1e-10):
+                ctx.violation("C06:difference-transform:smooth-max:forward", f"DifferenceNodeHeightTransform(k={k}) on increments {x}: heights {got}, the documented rule gives {want}",
+                              {"k": k, "x": x})
+                continue
+            back = tr.inv(torch.tensor(want)).tolist()
+            if not close(back, x, 1e-9):
+                ctx.violation("C06:difference-transform:smooth-max:inverse", f"DifferenceNodeHeightTransform(k={k}): inv(forward(x)) = {back} for x = {x}", {"k": k, "x": x})
+
+
 def run(ctx: Ctx):
     use_src()
     import logging
@@ -199,6 +273,8 @@ def run(ctx: Ctx):
             if len(g) >= 2:
                 check_inplace(ctx, g[0], g[-1])
         ctx.sample({k: cases[len(cases) // 3][k] for k in ("tree", "dates", "kind", "x", "heights")}, limit=4)
+    check_smooth_difference(ctx, rnd, ctx.tier)
+    check_calendar_dates(ctx, rnd)
     ctx.cov["rule"] = ("emitted (tree, dates, parameterisation, parameters) cases of the TLC-checked lattice, each replayed exactly; batched groups share "
                        "tree and dates; non-trivial = heterochronous dates")
     ctx.assumptions += ["no GPU: cuda() is not exercised (cpu() and to(dtype) are)"]
